@@ -86,7 +86,8 @@ def run(ctx: Ctx, tier: str) -> Result:
             elif w.enum[ENV] is not None:
                 want = ENV
             else:
-                want = None
+                # nothing anywhere: None - also when spelled as the (None-valued) environment lookup itself
+                return lambda got: got[0] == "return" and got[1] in (None, ENV)
             return lambda got: got[0] == "return" and got[1] == want
         table_rule(res, "C19.CHAIN", tb, rv, ref, "code value > deep.config default > DEEP_<KEY> environment > None")
         from .common import fmt_parts
@@ -258,6 +259,12 @@ def numeric_uses(ctx: Ctx, key: str):
             return
         seen.add((t.fkey(f), id(node)))
         par = p.parent_of(node)
+        # a use behind `isinstance(value, int)` is a use of a number, whatever the setting may also be
+        if isinstance(node, ast.Name):
+            for c_, pol_ in paths.conditions(p, node, f):
+                if pol_ and isinstance(c_, ast.Call) and norm(c_.func) == "isinstance" and len(c_.args) == 2 and norm(c_.args[0]) == node.id \
+                        and set(norm(x) for x in (c_.args[1].elts if isinstance(c_.args[1], ast.Tuple) else [c_.args[1]])) <= {"int", "float"}:
+                    return
         if isinstance(par, ast.BinOp) and not (isinstance(par.op, ast.Mod) and isinstance(par.left, ast.Constant) and isinstance(par.left.value, str)) \
                 and not isinstance(par.op, ast.Add):
             out.append((f, par, "arithmetically in `%s`" % norm(par)[:60]))
